@@ -92,6 +92,12 @@ def check(run, project):
     run.ob("A6", bool(carriers), "the synthesised encrypted layout is memoised (one class object per parameter area)",
            "encrypted() is no longer memoised: decoder and object builder synthesise two different classes", module=ref.mod,
            node=ref.node, func=ref.qual, construct="encrypted() memoisation")
+    # A7: the object the decoder returns equals the one rebuilt from its events: a union arm without payload is `None` in both
+    # (`_to_obj` turns the empty-field marker into None), so the union walker must return None for it - its return values are
+    # decided by C01-W7, re-used here
+    from ..report import RuleView
+    from . import c01
+    c01.check(RuleView(run, "W7", "A7"), project)
     run.floor("A1", 100)
     run.floor("A2", 500)
 
